@@ -745,6 +745,10 @@ class VF:
     def ev_Zst(self, n):
         fn = n.get('fn')
         if fn:
+            # a function item used as a value (e.g. `.map(Array2::view)`): remembered so that applying it dispatches like a call
+            if not hasattr(self, 'fnitems'):
+                self.fnitems = {}
+            self.fnitems[callee_key(fn)] = fn
             return T.app('fnitem', T.sym(callee_key(fn)))
         return T.sym('zst:' + n['ty'])
 
@@ -1075,7 +1079,52 @@ class VF:
     def ev_Loop(self, n):
         ls = self.new_loop('loop', n)
         self.run_loop_body(ls, lambda: self.ev(n['body']))
+        if not self.disc_mode:
+            self.counted_while(ls)
         return T.UNIT
+
+    def counted_while(self, ls):
+        """`let mut c = c0; while c < N { body; c += 1 }` (N invariant, one exit at the head, counter stepped once and unconditionally)
+        is the counted loop `for k in 0..N-c0` with c = c0 + k: give it the summary of a for-loop so that every rule about counted
+        loops applies to either spelling."""
+        if ls.kind != 'loop' or len(ls.exits) != 1 or ls.exits[0][0] != 'break' or ls.n is not None:
+            return
+        st = ls.exit_states[0] if ls.exit_states else {}
+        if any(v is not ls.lh.get(k) for k, v in (st or {}).items() if k in ls.lh and isinstance(v, T.Tm)):
+            return                      # the exit is not at the loop head
+        lhs = set(ls.lh.values())
+        cond = ls.exits[0][2]
+        for k, lh in ls.lh.items():
+            nx, c0 = ls.next.get(k), ls.init.get(k)
+            if not (isinstance(nx, T.Tm) and isinstance(c0, T.Tm) and nx is T.add(lh, T.ONE)):
+                continue
+            if any(x in lhs for x in T.subterms(c0)):
+                continue
+            # exit test: not (c < N)
+            N = None
+            for cand in T.subterms(cond):
+                pass
+            if cond[0] == 'not' and cond[1][0] == 'cmp' and cond[1][1] == 'gt':
+                d = T.add(cond[1][2], lh)          # (N - c) + c = N
+                if not any(x in lhs for x in T.subterms(d)) and cond is T.lnot(T.cmp('lt', lh, d)):
+                    N = d
+            if N is None:
+                continue
+            it = T.sym('it%d' % ls.uid)
+            m = {lh: T.add(c0, it)}
+            for k2 in list(ls.next):
+                if isinstance(ls.next[k2], T.Tm) and k2 is not k:
+                    ls.next[k2] = T.subst(ls.next[k2], m)
+            for e in ls.events:
+                e.args = [T.subst(a, m) if isinstance(a, T.Tm) else a for a in e.args]
+                e.pc = tuple(T.subst(c, m) for c in e.pc)
+            ls.kind, ls.var, ls.n, ls.elem, ls.seq_desc = 'for', it, T.sub(N, c0), T.add(c0, it), 'range'
+            ls.counter_key = k
+            ls.exits, ls.exit_states = [], []
+            for dct in (ls.lh, ls.next, ls.init, ls.lx):      # the counter is the iteration variable now, not carried state
+                dct.pop(k, None)
+            self.close_accumulators(ls)
+            return
 
     def ev_for(self, n):
         """for pat in iter { body } (ForLoopDesugar match)"""
@@ -1226,6 +1275,20 @@ class VF:
                 a = args[1]
                 items = a.items if isinstance(a, Tup) else (list(a[1]) if isinstance(a, T.Tm) and a[0] == 'tuple' else [a])
                 return self.apply_closure(f, items)
+        return self.dispatch_call(fn, key, h, args, n)
+
+    def apply_fn_item(self, ft, args, node):
+        """apply a function-item value fnitem(<callee>) to evaluated arguments: same dispatch as a direct call"""
+        fn = getattr(self, 'fnitems', {}).get(ft[2][0][1]) if T.is_app(ft, 'fnitem') and ft[2] and ft[2][0][0] == 'sym' else None
+        if fn is None:
+            return None
+        key = callee_key(fn)
+        h = self.semtab.lookup(key, fn)
+        if h is not None and getattr(h, 'lazy', False):
+            return None
+        return self.dispatch_call(fn, key, h, list(args), node or {})
+
+    def dispatch_call(self, fn, key, h, args, n):
         if h is not None:
             return h(self, n, fn, args)
         # crate-local functions: inline
